@@ -71,7 +71,9 @@ def _run(req, outdir):
         cmd += ["--calls"]
     flags = compdb.flags_for(req.source, req.config)
     if req.overlay:
-        flags = ["-ivfsoverlay", req.overlay] + flags
+        # overlay = "virtual=real[,virtual=real...]" : analyse scratch copies in place of files of /repo
+        for m in req.overlay.split(","):
+            cmd += ["--map", m]
     cmd += ["--"] + flags + [req.source]
     p = subprocess.run(cmd, capture_output=True, text=True)
     if not os.path.exists(out):
@@ -83,7 +85,8 @@ def _run(req, outdir):
 
 
 class Extractor:
-    def __init__(self, jobs=None):
+    def __init__(self, jobs=None, overlay=None):
+        self.overlay = overlay
         self.jobs = jobs or min(16, os.cpu_count() or 4)
         self.cache = {}
         self.failures = []
@@ -92,6 +95,9 @@ class Extractor:
             raise RuntimeError("extractor not built: run `make -C %s/tools/stirfacts` (MANIFEST setup_cmd)" % HERE)
 
     def prefetch(self, requests):
+        for r in requests:
+            if self.overlay and not r.overlay:
+                r.overlay = self.overlay
         todo = [r for r in requests if r.ident() not in self.cache]
         uniq = {}
         for r in todo:
@@ -116,6 +122,8 @@ class Extractor:
             shutil.rmtree(outdir, ignore_errors=True)
 
     def get(self, req):
+        if self.overlay and not req.overlay:
+            req.overlay = self.overlay
         if req.ident() not in self.cache:
             self.prefetch([req])
         return self.cache[req.ident()]
